@@ -24,7 +24,7 @@ Definition ctx_fresh (s : State) (c : CtxId) : Prop := ~ In (EvCtxCreated c) (lo
 Definition wf_op (s : State) (o : Op) : Prop :=
   match o with
   | OCall c _ _ _ _ _ _ _ _ freq _ _ _ => ctx_fresh s c /\ 0 <= freq < HEIGHT_BOUND
-  | OModCall c _ _ _ _ _ _ _ _ freq _ _ _ _ => ctx_fresh s c /\ 0 <= freq < HEIGHT_BOUND
+  | OModCall c _ _ _ _ _ _ _ _ freq _ _ md _ => ctx_fresh s c /\ 0 <= freq < HEIGHT_BOUND /\ md <> 0
   | OUpdateCtx _ _ _ _ _ freq _ _ => 0 <= freq < HEIGHT_BOUND
   | OEndBlock dt => 0 <= dt /\ height s < HEIGHT_BOUND
   | _ => True
@@ -92,7 +92,7 @@ Definition I_index (cfg : Params) (s : State) : Prop :=
      /\ get k (pricing s) = Some (parse_pricing (b_raw b))
      /\ validate_pricing (parse_pricing (b_raw b)) = true
      /\ schema_pricing (parse_pricing (b_raw b)) = true
-     /\ pr_price (parse_pricing (b_raw b)) * p_multiple cfg < INT_LIMIT)
+     /\ (b_avail b = true -> pr_price (parse_pricing (b_raw b)) * p_multiple cfg < INT_LIMIT))
   /\ (forall o svc p, In (o, svc, p) (own_bind s) ->
         exists b, get (svc, p) (binds s) = Some b /\ b_owner b = o)
   /\ (forall o p, In (o, p) (own_prov s) <-> get p (owner_of s) = Some o)
